@@ -62,7 +62,7 @@ Definition dClim : dec clim_spec :=
   let* i := dPos in let* a := dRes in let* b := dRes in let* c := dRes in ret (mkCl i a b c).
 
 Definition dAttempt : dec attempt :=
-  let* n := dPos in let* cs := dListS dPos in let* o := dListS dPos in let* qo := dListS dPos in ret (mkAtt n cs o qo).
+  let* n := dPos in let* cs := dListS dPos in let* o := dListS dPos in let* qo := dListS dPos in let* tp := dBool in ret (mkAtt n cs o qo tp).
 Definition dTaskAtt : dec (positive * list attempt) := dPair dPos (dListS dAttempt).
 Definition dChoice : dec choice :=
   let* k := dZ in
